@@ -514,22 +514,24 @@ class Core(composites.Composite):
 
         # could speed up output by passing format args as an arg and only process if verb good.
         runLog.debug("Adding   {0} to {1}".format(a, self))
-        composites.Composite.add(self, a)
         aName = a.getName()
 
         spatialLocator = spatialLocator or a.spatialLocator
 
-        if spatialLocator is not None and spatialLocator in self.childrenByLocator:
-            raise ValueError(
-                "Cannot add {} because location {} is already filled by {}."
-                "".format(
-                    aName, spatialLocator, self.childrenByLocator[spatialLocator]
-                )
-            )
-
+        # everything that can refuse the assembly is checked before the core is touched
         if spatialLocator is not None:
             # transfer spatialLocator to Core one
             spatialLocator = self.spatialGrid[tuple(spatialLocator.indices)]
+            if (
+                spatialLocator in self.childrenByLocator
+                and self.childrenByLocator[spatialLocator] is not a
+            ):
+                raise ValueError(
+                    "Cannot add {} because location {} is already filled by {}."
+                    "".format(
+                        aName, spatialLocator, self.childrenByLocator[spatialLocator]
+                    )
+                )
             if not self.spatialGrid.locatorInDomain(
                 spatialLocator, symmetryOverlap=True
             ):
@@ -538,11 +540,7 @@ class Core(composites.Composite):
                         spatialLocator, self.spatialGrid.symmetry.domain
                     )
                 )
-            a.moveTo(spatialLocator)
 
-        self.childrenByLocator[spatialLocator] = a
-        # the occupied locations changed: the circular rings have to be worked out again
-        self.circularRingList = {}
         # build a lookup table for history tracking.
         if aName in self.assembliesByName and self.assembliesByName[aName] != a:
             # try to keep assem numbering correct
@@ -552,6 +550,14 @@ class Core(composites.Composite):
                 "".format(aName, self.assembliesByName[aName], a, self.r.p.maxAssemNum)
             )
             raise RuntimeError("Core already contains an assembly with the same name.")
+
+        composites.Composite.add(self, a)
+        if spatialLocator is not None:
+            a.moveTo(spatialLocator)
+
+        self.childrenByLocator[spatialLocator] = a
+        # the occupied locations changed: the circular rings have to be worked out again
+        self.circularRingList = {}
 
         self.assembliesByName[aName] = a
         for b in a:
